@@ -126,8 +126,11 @@ class Harness:
             msg = parse_message({"jsonrpc": "2.0", "id": self.n_created, "method": "initialize",
                                  "params": {"protocolVersion": req_ver, "clientInfo": ci, "capabilities": {}}})
             before = set(sm.list_sessions())
+            on_session = self.target(op[2]) if len(op) > 2 else None
             try:
-                resp, sid = self.loop.run_until_complete(self.handler.handle_message(msg))
+                resp, sid = self.loop.run_until_complete(
+                    self.handler.handle_message(msg, session_id=on_session) if on_session is not None
+                    else self.handler.handle_message(msg))
             except Exception as e:  # noqa
                 v.append(("initialize_raised", f"handle_message(initialize) raised {e!r}"))
                 return v
@@ -139,6 +142,8 @@ class Harness:
             if len(added) != 1 or sid not in added or before - after:
                 v.append(("initialize_session_count", f"initialize changed sessions by +{sorted(added)} "
                           f"-{sorted(before - after)}, returned {sid!r}"))
+            if on_session is not None and on_session in model:
+                model[on_session]["last_activity"] = now   # any message on a live session counts as activity
             if sid:
                 if sid in self.known:
                     v.append(("duplicate_session_id", f"initialize returned an id already issued: {sid!r}"))
@@ -215,7 +220,7 @@ class Harness:
 
 
 TARGETS = [0, 1, 2]
-OPS: List[Tuple] = ([("create",), ("list_mutate",), ("clear",), ("init",), ("get",)]
+OPS: List[Tuple] = ([("create",), ("list_mutate",), ("clear",), ("init",), ("get",), ("init", "2025-06-18", 0)]
                     + [("update", t) for t in TARGETS] + [("delete", t) for t in TARGETS]
                     + [("request", t) for t in TARGETS] + [("touch_meta", 0), ("notify", 0)]
                     + [("cleanup", a) for a in (0, 1, 2)] + [("advance", d) for d in (1, 2, 0.5)])
@@ -307,7 +312,8 @@ def run(ctx):
     extra_ops = OPS + [("cleanup", None), ("advance", 3600), ("advance", 1800), ("advance", 0.25), ("advance", 1.5),
                        ("advance", 3600.5), ("request", 0, "tools/list"),
                        ("init", "1999-01-01"), ("init", "2025-06-18"), ("update", 5), ("delete", 7), ("touch_meta", 1),
-                       ("notify", 1), ("notify", 0, "notifications/initialized")]
+                       ("notify", 1), ("notify", 0, "notifications/initialized"), ("init", "2024-11-05", 1), ("init", "1999-01-01", 0),
+                       ("init", "2025-03-26", 9)]
     for k in range(n_short + n_long):
         L = rng.randint(4, 12) if k < n_short else 200
         seq = []
